@@ -722,14 +722,14 @@ class _Merger(object):
                     ' '.join(str(arg) for arg in non_defaulted)))
 
     def _same_annotation(self, left, right):
-        if left.annotation != right.annotation:
-            return False
         l_upgraded = left.upgraded_annotation
         r_upgraded = right.upgraded_annotation
         if l_upgraded is EmptyAnnotation or r_upgraded is EmptyAnnotation:
-            return True
+            # nothing is known about where they were written
+            return left.annotation == right.annotation
         # postponed annotations are text: the same text may denote
-        # different objects in the modules the two functions come from
+        # different objects in the modules the two functions come from,
+        # and different texts the same object
         try:
             return l_upgraded == r_upgraded
         except Exception:
